@@ -236,6 +236,7 @@ func (x *Exec) verify() {
 		if as := antecedents[i]; len(as) > 0 {
 			ob := x.oblige("cover", fmt.Sprintf("antecedent(%d)", i), nil, "the antecedent of the clause is satisfiable: "+c.Text, o.True(), o.Not(o.Or(as...)))
 			ob.Cover = true
+			ob.CoverTags = c.Tags
 		}
 	}
 }
